@@ -150,6 +150,25 @@ def nested_tables() -> List[dict]:
     return out
 
 
+def outward_next_tables() -> List[dict]:
+    """root -> [W1, G, H] (or [W1, G, W2], W2 -> (H, J)) with W1 -> (F,): the frame that follows F is an OUTWARD sibling of its
+    wrapper.  Every elaborate outcome on F (in particular insert-before-next_inner), on the inserted frame I, and on G: an
+    insertion made from the deeper frame must not change how far a later prune reaches."""
+    out = []
+    els = [None, ["seq", []], ["one", 15], ["seq", [15, "next"]], ["raise", 9]]
+    for tail in ([13], [2]):
+        for eF, eI, eG in itertools.product(els[:4], [None, ["seq", []], ["one", 16], ["seq", [16, "next"]]], els):
+            items = [{"id": 0, "kind": "thing", "uw": ["tuple", [1, 12] + tail]},
+                     {"id": 1, "kind": "thing", "uw": ["tuple", [10]]},
+                     {"id": 2, "kind": "thing", "uw": ["tuple", [13, 14]]},
+                     {"id": 10, "kind": "frame", "el": eF, "hide": False},
+                     {"id": 12, "kind": "frame", "el": eG, "hide": False}, {"id": 13, "kind": "frame", "el": None, "hide": False},
+                     {"id": 14, "kind": "frame", "el": None, "hide": False}, {"id": 15, "kind": "frame", "el": eI, "hide": False},
+                     {"id": 16, "kind": "frame", "el": None, "hide": False}]
+            out.append({"k": "env", "x": 0, "wc": False, "items": items})
+    return out
+
+
 def guard_cases() -> List[dict]:
     out = []
     # linear cycles of length 1..3 and long chains around the 100 threshold
@@ -343,6 +362,7 @@ class C10(PropCheck):
         cand += ex
         nt = nested_tables()
         cand += nt if tier != "quick" else rng.sample(nt, 350)
+        cand += outward_next_tables()
         n = 700 if tier == "quick" else 12000
         for _ in range(n):
             cand.append(rand_env(rng, rng.randint(1, 5), rng.randint(1, 4), rng.randint(0, 2),
